@@ -190,7 +190,20 @@ func c17Run(c c17Case) (verdict string, nontrivial bool) {
 			}
 			return "", false
 		}
-		return c17CheckProduct(src, dst, rules), len(rules) > 1
+		if v := c17CheckProduct(src, dst, rules); v != "" {
+			return v, len(rules) > 1
+		}
+		// a result stays what it is while other pairs are expanded (a caller holds several at once: one PDR each)
+		snapshot := append([]portRangeTernaryCartesianProduct{}, rules...)
+		for _, o := range [][2]portRange{{{1, 9}, {0, 0xFFFF}}, {{0, 0xFFFF}, {65505, 65535}}, {{80, 80}, {0, 0xFFFF}}} {
+			vCatch(func() { CreatePortRangeCartesianProduct(o[0], o[1]) })
+		}
+		for i := range snapshot {
+			if i >= len(rules) || rules[i] != snapshot[i] {
+				return "the returned entries changed while another pair was being expanded (shared buffer)", len(rules) > 1
+			}
+		}
+		return "", len(rules) > 1
 	case "parseport":
 		var ep endpoint
 		ep.ports = portRange{7, 7}
